@@ -111,6 +111,8 @@ def serializer_config(name):
         return SerializerConfig(ignore_default_attributes=True)
     if name == "schemaloc":
         return SerializerConfig(schema_location="urn:basic basic.xsd", no_namespace_schema_location="nons.xsd")
+    if name == "latin1":
+        return SerializerConfig(encoding="ISO-8859-1", xml_version="1.1", indent="\t")
     raise KeyError(name)
 
 
@@ -311,6 +313,26 @@ def op_parse_xml(docname, data, clazz_key, handler, cfg, needs, group):
     return Op(f"parse_xml:{handler}:{docname}:{cfg}", "parse_xml", fn, tool, needs, faults, group, docname)
 
 
+def op_parse_xml_tree(docname, data, clazz_key, handler, needs, group):
+    """The document arrives as an already built tree (lxml ElementTree / xml.etree Element): the handlers
+    walk it instead of pulling bytes; the parser instance is the one the byte-source operations use."""
+    tool = ("xp", handler, "default")
+
+    def fn(env, fault):
+        p = env.tool(tool)
+        if handler == "lxml":
+            from lxml import etree
+
+            source = etree.fromstring(data).getroottree()
+        else:
+            import xml.etree.ElementTree as ET
+
+            source = ET.fromstring(data)
+        return p.parse(source, _resolve_clazz(clazz_key))
+
+    return Op(f"parse_xml:{handler}:{docname}:treesrc", "parse_xml", fn, tool, needs, (), group, docname)
+
+
 def op_user_parse(docname, data, clazz_key, handler, needs, group):
     tool = ("up", handler)
 
@@ -482,6 +504,8 @@ def build_ops(gen_docs=None):
         if ck is not None:
             ops.append(op_user_parse(name, data, ck, "lxml", needs, g))
         ops.append(op_tree_parse(name, data, "native", needs, g))
+        for h in handlers:
+            ops.append(op_parse_xml_tree(name, data, ck, h, needs, g))
     # documents that do not fit
     for name, (data, ck, needs) in C.BAD_XML.items():
         g = group_of(ck)
@@ -508,6 +532,7 @@ def build_ops(gen_docs=None):
             ops.append(op_ser_xml(name, factory, "native", "nodecl", "m2", needs, g))
             ops.append(op_ser_xml(name, factory, "lxml", "skipdef", "none", needs, g))
             ops.append(op_ser_xml(name, factory, "native", "schemaloc", "none", needs, g))
+            ops.append(op_ser_xml(name, factory, "lxml", "latin1", "m2", needs, g))
             ops.append(op_ser_json(name, factory, "factory", needs, g))
             ops.append(op_ser_json(name, factory, "indent", needs, g))
             ops.append(op_dict_encode(name, factory, "skipdef", "filter_none", needs, g))
